@@ -1127,14 +1127,13 @@ func ImportToPath(pkgPath, pkgName string) string {
 }
 
 func (decl ImportDecl) CoqDecl() string {
-	coqPath := pathToCoqPath(decl.Path)
-	coqImportPath := strings.ReplaceAll(path.Dir(coqPath), "/", ".")
-	// the file of the imported package is named after the mapped path (see ImportToPath)
-	name := path.Base(coqPath)
+	// the logical path of the imported package's file (see ImportToPath): the
+	// mapped import path with '/' as '.'
+	coqImportPath := strings.ReplaceAll(pathToCoqPath(decl.Path), "/", ".")
 	if decl.Trusted {
-		return fmt.Sprintf("From Perennial.goose_lang.trusted Require Import %s.%s.", coqImportPath, name)
+		return fmt.Sprintf("From Perennial.goose_lang.trusted Require Import %s.", coqImportPath)
 	} else {
-		return fmt.Sprintf("From Goose Require %s.%s.", coqImportPath, name)
+		return fmt.Sprintf("From Goose Require %s.", coqImportPath)
 	}
 }
 
